@@ -224,6 +224,9 @@ Definition libcore (callback : caller) (name : str) (args : list value) (w : wor
     | Some None => (LVal VNull, w)
     | None => (LFuel, w)
     end
+  (* two host functions of the test harness (python callables placed in the globals by the host) *)
+  else if op_is name "__hostFirst" then (LVal (nth 0 args VNull), w)
+  else if op_is name "__hostCount" then (LVal (int_val (Z.of_nat (length args))), w)
   else (LOracle, w).
 
 End Lib.
